@@ -228,6 +228,11 @@ func (w *Worker) runItem(it *workItem, fn *ssa.Function) {
 		}
 		p.callFunction(nil, fn, nil, nil, nil)
 	}()
+	if kind == "budget" {
+		// unwinding assertion failed: a candidate non-termination, confirmed (or
+		// not) by the native replay under a timeout
+		w.recordViolation(p, "terminates-within-the-instruction-budget", "budget", msg, p.model)
+	}
 	w.steps += int64(p.steps)
 	w.paths++
 	e := w.eng
